@@ -700,7 +700,9 @@ def _run(scn, log: EventLog, stats: Stats):
         ret = None
         try:
             if name == "insert":
-                val = table_to_frame(scn["tables"][op["table"]], scn["replica"])
+                # DBSpace converts whatever frame type it is handed: now and then it is handed a Polars frame
+                as_pl = scn["replica"] == "db" and (op["id"] + op["table"]) % 5 == 0
+                val = table_to_frame(scn["tables"][op["table"]], "pl" if as_pl else scn["replica"])
                 kw = {}
                 if op["ow"] is not None:
                     kw["allow_overwrite"] = op["ow"]
